@@ -44,9 +44,9 @@ package common
 
 // pidOf is the pagination key of a row (reflection over struct tags: not interpreted)
 //@ declare pidOf(v any, fields []reflect.StructField) bigint
-//@ axiom forall v any, f []reflect.StructField :: {pidOf(v, f)} pidOf(v, f) != nil
+// (no axiom says pidOf is non-nil: a nullable sort column such as reverted_at has rows without a pagination key)
 //@ assumed func findPaginationField(v any, fields ...reflect.StructField) (r *big.Int)
-//@   ensures r == pidOf(v, fields) && r != nil
+//@   ensures r == pidOf(v, fields)
 
 // ---- paginator_column.go --------------------------------------------------------------------------
 
@@ -82,23 +82,27 @@ package common
 //@   requires o.query.Order != nil
 //@   requires len(ret) <= effPageSize(o.query.PageSize) + 1
 //@   requires o.query.PaginationID != nil ==> o.query.Bottom != nil
-//@   ensures err == nil && r != nil
-//@   ensures len(r.Data) == min(len(ret), effPageSize(o.query.PageSize)) && r.PageSize == effPageSize(o.query.PageSize)
-//@   ensures r.HasMore == (next != nil)
-//@   ensures !o.query.Reverse ==> (next != nil) == (len(ret) > effPageSize(o.query.PageSize))
-//@   ensures !o.query.Reverse && next != nil ==> !next.Reverse && next.PaginationID == pidOf(boxany(ret[effPageSize(o.query.PageSize)]), fields)
-//@   ensures !o.query.Reverse ==> forall i int :: {r.Data[i]} 0 <= i && i < len(r.Data) ==> r.Data[i] == ret[i]
-//@   ensures o.query.Reverse ==> next != nil && !next.Reverse && next.PaginationID == o.query.PaginationID
-//@   ensures o.query.Reverse ==> (previous != nil) == (len(ret) > effPageSize(o.query.PageSize))
-//@   ensures o.query.Reverse && previous != nil ==> previous.Reverse && previous.PaginationID == pidOf(boxany(ret[effPageSize(o.query.PageSize) - 1]), fields)
-//@   ensures o.query.Reverse ==> forall i int :: {r.Data[i]} 0 <= i && i < len(r.Data) ==> r.Data[i] == ret[len(r.Data) - 1 - i]
-//@   ensures !o.query.Reverse && previous != nil ==> previous.Reverse && previous.PaginationID == o.query.PaginationID
-//@   ensures (old(o.query.Bottom) == nil && len(ret) > 0) ==> ((next != nil ==> next.Bottom == pidOf(boxany(ret[0]), fields)) && (previous != nil ==> previous.Bottom == pidOf(boxany(ret[0]), fields)))
-//@   ensures old(o.query.Bottom) != nil ==> ((next != nil ==> next.Bottom == old(o.query.Bottom)) && (previous != nil ==> previous.Bottom == old(o.query.Bottom)))
+//@   ensures err == nil ==> r != nil
+//@   ensures err != nil ==> isErr(err, ErrInvalidQuery)
+//@   ensures err == nil ==> (len(r.Data) == min(len(ret), effPageSize(o.query.PageSize)) && r.PageSize == effPageSize(o.query.PageSize))
+//@   ensures err == nil ==> (r.HasMore == (next != nil))
+//@   ensures err == nil ==> (!o.query.Reverse ==> (next != nil) == (len(ret) > effPageSize(o.query.PageSize)))
+//@   ensures err == nil ==> (!o.query.Reverse && next != nil ==> !next.Reverse && next.PaginationID == pidOf(boxany(ret[effPageSize(o.query.PageSize)]), fields))
+//@   ensures err == nil ==> (!o.query.Reverse ==> forall i int :: {r.Data[i]} 0 <= i && i < len(r.Data) ==> r.Data[i] == ret[i])
+//@   ensures err == nil ==> (o.query.Reverse ==> next != nil && !next.Reverse && next.PaginationID == o.query.PaginationID)
+//@   ensures err == nil ==> (o.query.Reverse ==> (previous != nil) == (len(ret) > effPageSize(o.query.PageSize)))
+//@   ensures err == nil ==> (o.query.Reverse && previous != nil ==> previous.Reverse && previous.PaginationID == pidOf(boxany(ret[effPageSize(o.query.PageSize) - 1]), fields))
+//@   ensures err == nil ==> (o.query.Reverse ==> forall i int :: {r.Data[i]} 0 <= i && i < len(r.Data) ==> r.Data[i] == ret[len(r.Data) - 1 - i])
+//@   ensures err == nil ==> (!o.query.Reverse && previous != nil ==> previous.Reverse && previous.PaginationID == o.query.PaginationID)
+//@   ensures err == nil ==> ((old(o.query.Bottom) == nil && len(ret) > 0) ==> ((next != nil ==> next.Bottom == pidOf(boxany(ret[0]), fields)) && (previous != nil ==> previous.Bottom == pidOf(boxany(ret[0]), fields))))
+//@   ensures err == nil ==> (old(o.query.Bottom) != nil ==> ((next != nil ==> next.Bottom == old(o.query.Bottom)) && (previous != nil ==> previous.Bottom == old(o.query.Bottom))))
 //@   loop 1:
 //@     index k
 //@     invariant len(paginationIDs) == k
 //@     invariant forall j int :: {paginationIDs[j]} 0 <= j && j < k ==> paginationIDs[j] == pidOf(boxany(ret[j]), fields)
+//@     invariant forall j int :: {paginationIDs[j]} 0 <= j && j < k ==> paginationIDs[j] != nil
+//@     invariant previous == nil && next == nil
+//@     invariant k > 0 ==> o.query.Bottom != nil
 //@     invariant o.query.Order == old(o.query.Order) && o.query.PageSize == old(o.query.PageSize) && o.query.Reverse == old(o.query.Reverse) && o.query.PaginationID == old(o.query.PaginationID)
 //@     invariant old(o.query.Bottom) != nil ==> o.query.Bottom == old(o.query.Bottom)
 //@     invariant (old(o.query.Bottom) == nil && k > 0) ==> o.query.Bottom == pidOf(boxany(ret[0]), fields)
